@@ -18,7 +18,8 @@ pub fn str_split_once_dot(name: &String) -> (r: Option<(&str, &str)>)
 { unimplemented!() }
 
 // THE NOTION: package `p` is referred to inside the expression — some call anywhere in it (callee, arguments, operands, literals, nested
-// blocks and their statements) has a callee variable spelled `p.Name`.  (The emitted Go reaches a foreign package only through such calls.)
+// blocks and their statements) has a callee variable spelled `p.Name`.  (The emitted code reaches a foreign package only through such calls; the one
+// other place a package is named is the target of a type alias, see item_refs.)
 pub open spec fn head_ref(f: Expr, p: Seq<char>) -> bool {
     match f { Expr::Var { name, .. } => call_pkg(name@) == Some(p), _ => false }
 }
@@ -78,6 +79,8 @@ pub open spec fn item_refs(it: Item, p: Seq<char>) -> bool {
     match it {
         Item::Fn(f) => stmts_refs(f.body.stmts@, p),
         Item::Struct(s) => exists|i: int| 0 <= i < s.methods@.len() && stmts_refs((#[trigger] s.methods@[i]).body.stmts@, p),
+        // `type Time = time.Time`: the alias's target names its package (fix cec87b0: an extern type whose functions are never called)
+        Item::TypeAlias(a) => a.ty matches GoType::TName { name } && call_pkg(name@) == Some(p),
         _ => false,
     }
 }
